@@ -374,6 +374,11 @@ def gen_gate_match(r):
             out.append(f"DEFCAL {mod}RX({r.choice(['%t', 'pi', 'pi/2', '1.0'])}) {r.choice(['0', '1', 'q'])}:\n    NOP")
         else:
             out.append(f"DEFCAL {mod}CZ {r.choice(['0', '1', 'q'])} {r.choice(['1', '2', 'r'])}:\n    NOP")
+    # (modifier lists that differ only in order or multiplicity must not match each other)
+    for m1, m2 in [("DAGGER CONTROLLED", "CONTROLLED DAGGER"), ("DAGGER DAGGER", "DAGGER CONTROLLED")]:
+        if r.random() < 0.25:
+            out.append(f"DEFCAL {m1} RX(%t) 3 0:\n    NOP")
+            out.append(f"{r.choice([m1, m2])} RX(0.5) 3 0")
     for _ in range(r.randrange(3, 9)):
         mod = r.choice(["", "", "", "DAGGER ", "CONTROLLED "])
         if r.random() < 0.5:
